@@ -121,6 +121,50 @@ Theorem C14_save_one_batch_full : forall (m : img) hd d s,
 Proof. exact save_one_batch. Qed.
 Print Assumptions C14_save_one_batch_full.
 
+(* ---- the hash index under key normalisation (GenerateKey and ds.NewKey both apply path.Clean) ---------- *)
+(* what reaches the database for the index entry of a hash is key_clean ("/i/" ++ <text of the hash>).  With the
+   code's text (uppercase hex) normalisation changes nothing: the key IS index_key hash, for every non-empty hash *)
+Theorem C14_index_key_normal_full : forall hash : string,
+  hash <> "" -> index_text_key (hex hash) = index_key hash.
+Proof. exact index_key_normal. Qed.
+Print Assumptions C14_index_key_normal_full.
+
+(* and it identifies no two hashes - for ALL byte strings a caller can pass (any length, the empty one included):
+   index entries of different hashes never alias one another, a read by one hash never sees the entry of another *)
+Theorem C14_index_key_injective_after_normalisation_full : forall a b : string,
+  index_text_key (hex a) = index_text_key (hex b) -> a = b.
+Proof. exact index_key_clean_inj. Qed.
+Print Assumptions C14_index_key_injective_after_normalisation_full.
+
+(* why: ANY injective textual form of the hash that is always one clean path element (not empty, no '/', no '.')
+   gives keys that normalisation keeps apart; the hypothesis is needed - ex_normalisation_identifies_slash_texts *)
+Theorem C14_index_text_key_injective_full : forall enc : string -> string,
+  (forall a b, enc a = enc b -> a = b) -> (forall a, one_element (enc a) = true) ->
+  forall a b, index_text_key (enc a) = index_text_key (enc b) -> a = b.
+Proof. exact index_text_key_inj. Qed.
+Print Assumptions C14_index_text_key_injective_full.
+
+(* a read by a hash that no header ever handed to SaveBlockData has - whatever bytes the caller passes, after any
+   history of operations, reopenings, crashes and write faults - finds nothing: neither a block nor a signature *)
+Theorem C14_by_hash_unwritten_not_found_full : forall (h : list item) (hash : string),
+  hash_consistentb (saves h) = true ->
+  (forall hd, In hd (saves h) -> hhash hd <> hash) ->
+  snd (step (final h) (OGetByHash hash)) = RErr /\ snd (step (final h) (OGetSigByHash hash)) = RErr.
+Proof. exact by_hash_unwritten. Qed.
+Print Assumptions C14_by_hash_unwritten_not_found_full.
+
+(* a signature read by hash returns the signature record of the block read by that hash, or not-found with it *)
+Theorem C14_sig_by_hash_full : forall (h : list item) (hash : string),
+  hash_consistentb (saves h) = true ->
+  match snd (step (final h) (OGetSigByHash hash)) with
+  | RSig s => exists hd d, snd (step (final h) (OGetByHash hash)) = RBlock hd d /\ hhash hd = hash /\
+                           snd (step (final h) (OGetSig (hheight hd))) = RSig s
+  | RErr => snd (step (final h) (OGetByHash hash)) = RErr
+  | _ => False
+  end.
+Proof. exact sig_by_hash_sound. Qed.
+Print Assumptions C14_sig_by_hash_full.
+
 (* ---- non-vacuity: a concrete history meeting the hypotheses, with an overwrite at one height by a
    header of a different hash, a crash inside a save, a reopen, and the node's metadata keys ------- *)
 Definition hA := {| hid := 1; hheight := 5; hhash := "aa" |}.
@@ -162,6 +206,23 @@ Example node_meta_keys_clean :
   forallb clean_meta ["d"; "l"; "last-submitted-header-height"; "last-submitted-data-height"; "rhb/12/h"; "rhb/12/d"] = true
   /\ forallb (fun k => negb (clean_meta k)) [""; "a//b"; "../h/1"; "a/"; "./x"] = true.
 Proof. vm_compute. split; reflexivity. Qed.
+
+(* key normalisation: doubled slashes and dot elements vanish, so two DIFFERENT texts with '/' in them can be one key
+   (which is why a textual form of the hash must be one clean element: C14_index_text_key_injective_full); the hex
+   text of a hash is one, its key is untouched, the empty hash has the key "/i" *)
+Example ex_normalisation_identifies_slash_texts :
+  index_text_key "ab//cd/ef" = index_text_key "ab/cd//ef" /\ "ab//cd/ef" <> "ab/cd//ef" /\
+  index_text_key "/abcd" = index_text_key "abcd/" /\ index_text_key "ab/./cd" = index_text_key "ab///cd" /\
+  one_element "ab//cd/ef" = false /\ one_element "" = false /\ one_element ".." = false.
+Proof. vm_compute. repeat split; try reflexivity; discriminate. Qed.
+Example ex_index_key_is_normal :
+  index_text_key (hex "//.") = "/i/2F2F2E" /\ index_key "//." = "/i/2F2F2E" /\ one_element (hex "//.") = true /\
+  index_text_key (hex "") = "/i" /\
+  key_clean "/m/../h/1" = "/h/1" /\ key_clean "/" = "/" /\ key_clean "/a/b/../../.." = "/".
+Proof. vm_compute. repeat split; reflexivity. Qed.
+(* the hypotheses of C14_by_hash_unwritten_not_found_full are met: after ex_history the hash "ab" was never saved *)
+Example ex_unwritten : forall hd, In hd (saves ex_history) -> hhash hd <> "ab".
+Proof. intros hd H. vm_compute in H. repeat (destruct H as [<-|H]; [discriminate|]). contradiction. Qed.
 
 (* the order of the encoded height records as byte strings is NOT the order of the heights (the low byte comes first):
    across a multiple of 256 it is wrong in both directions - which is why SetHeight must compare the decoded numbers,
